@@ -456,6 +456,93 @@ Definition extract_partial (priv : bool) (pre : path) (umask : N) (preserve : bo
   | (f, Some x) => (f, Some x)
   end.
 
+(* ---------- restoreDirModes step by step, in its real order, with the kernel's check ----------
+   chmod(2) by the owner needs search permission (0100) on every directory above the one whose
+   mode changes.  restoreDirModes sorts the directory entries by depth (stable), walks the
+   sorted list backwards -- deepest first -- and handles every path once; the mode is the one of
+   the last entry of the path. *)
+Definition owner_x : N := 64.
+Definition has_x (m : N) : bool := N.land m owner_x =? owner_x.
+
+(* every directory strictly above rp (reversed path), the base included, is searchable *)
+Fixpoint ancestors_x (f : fs) (rp : path) : bool :=
+  match rp with
+  | [] => true
+  | _ :: rparent =>
+      match fs_lookup f (rev rparent) with
+      | Some (NDir m) => has_x m
+      | _ => true
+      end && ancestors_x f rparent
+  end.
+
+Fixpoint last_dir_mode (pre p : path) (es : list entry) : option N :=
+  match es with
+  | [] => None
+  | e :: es' =>
+      match last_dir_mode pre p es' with
+      | Some m => Some m
+      | None =>
+          match e_kind e, strip_prefix pre (e_name e) with
+          | EDir, Some rel => if path_eqb rel p then Some (e_mode e) else None
+          | _, _ => None
+          end
+      end
+  end.
+
+Fixpoint dir_paths (pre : path) (es : list entry) : list path :=
+  match es with
+  | [] => []
+  | e :: es' =>
+      match e_kind e, strip_prefix pre (e_name e) with
+      | EDir, Some rel => rel :: dir_paths pre es'
+      | _, _ => dir_paths pre es'
+      end
+  end.
+
+Fixpoint dedup (l : list path) : list path :=
+  match l with
+  | [] => []
+  | p :: l' => if existsb (path_eqb p) (dedup l') then dedup l' else p :: dedup l'
+  end.
+
+(* sort.SliceStable by depth, ascending *)
+Fixpoint insert_by_depth (p : path) (l : list path) : list path :=
+  match l with
+  | [] => [p]
+  | q :: l' => if (length q <=? length p)%nat then q :: insert_by_depth p l' else p :: l
+  end.
+Definition sort_by_depth (l : list path) : list path := fold_right insert_by_depth [] l.
+
+(* the order in which restoreDirModes changes modes: deepest first *)
+Definition restore_order (pre : path) (es : list entry) : list path :=
+  rev (sort_by_depth (dedup (dir_paths pre es))).
+
+Definition restore_step (priv : bool) (pre : path) (preserve : bool) (es : list entry) (f : fs) (p : path) : res fs :=
+  match last_dir_mode pre p es, fs_lookup f p with
+  | Some m, Some (NDir cur) =>
+      if priv || ancestors_x f (rev p)
+      then Ok (fs_set f p (NDir (final_dir_mode preserve cur m)))
+      else Err XPerm
+  | _, _ => Ok f
+  end.
+
+Fixpoint restore_in_order (priv : bool) (pre : path) (preserve : bool) (es : list entry) (f : fs) (order : list path) : res fs :=
+  match order with
+  | [] => Ok f
+  | p :: order' =>
+      match restore_step priv pre preserve es f p with
+      | Ok f' => restore_in_order priv pre preserve es f' order'
+      | Err x => Err x
+      end
+  end.
+
+(* extraction with restoreDirModes in its real order *)
+Definition extract_po (priv : bool) (pre : path) (umask : N) (preserve : bool) (es : list entry) : res fs :=
+  match extract_list_p priv pre umask preserve (fs_init umask) es with
+  | Ok f => restore_in_order priv pre preserve es f (restore_order pre es)
+  | Err x => Err x
+  end.
+
 (* the same check on the code before restoreDirModes (directories created with their recorded mode) *)
 Fixpoint extract_list_prefix_p (priv : bool) (pre : path) (umask : N) (preserve : bool) (f : fs) (es : list entry) : res fs :=
   match es with
